@@ -354,11 +354,40 @@ def r5_abandoned(r, facts):
     r.floor(5, 'pool-selecting operations')
 
 
+def r6_selected_buffer_adopted(r, facts):
+    """whenever a completion names a pool buffer (CompletionFlags::buf_id() is Some) the decoder hands that
+    buffer to a ReadBuf (buffer_init / new_buffer), whatever the byte count — otherwise nobody owns it and it
+    is never re-offered"""
+    n = 0
+    for f in facts.func_list:
+        if f.kind == 'closure':
+            continue
+        bids = [(l, t) for l, t in f.calls() if (t.get('callee') or '') == 'io_uring::op::CompletionFlags::buf_id' and not f.blocks[l[0]]['cleanup']]
+        if not bids or not (f.path.endswith('::map_ok') or f.path.endswith('::map_next') or f.path.endswith('::fallback') or f.path.endswith('::map_ok_extract')):
+            continue
+        adopt = [l for l, t in f.calls() if (t.get('callee') or '').rsplit('::', 1)[-1] in ('buffer_init', 'new_buffer')]
+        for l, t in bids:
+            n += 1
+            dest = t['dest']['l']
+            some = None
+            for si in f.enum_switches('std::option::Option'):
+                if not si['place']['p'] and si['place']['l'] == dest:
+                    some = f.variant_edge(si, 'Some')
+            r.inst('%s: buf_id() Some edge %s, adopt sites %d' % (f.path, some, len(adopt)), f.where(l))
+            if not r.require(some is not None and adopt, 'adopt:%s' % f.path.split('::')[-2 if f.path.count('::') else 0], 'the Some edge of buf_id() / the buffer_init|new_buffer call was not found in %s (unrecognised form)' % f.path, f.where(l)):
+                continue
+            hit = f.forward_paths_hit([Loc(some[1], 0)], f.returns(), blockers=adopt)
+            key = re.sub(r'<.*', '', f.path.split(' as ')[0].lstrip('<')).split('::')[-1] + '::' + f.path.split('::')[-1]
+            r.require(hit is None, 'adopt:%s' % key, 'a completion that names a pool buffer (buf_id() is Some) can be decoded without giving that buffer to a ReadBuf (an extra condition sits between the id and buffer_init/new_buffer): the kernel-selected buffer has no owner and is never offered again', f.where(hit[0]) if hit else f.where(l))
+    r.floor(5, 'decoders with a buffer id')
+
+
 def check(ctx):
     ctx.run('C08.R1', 'owner pointer discipline: writers of ReadBuf.owned; change_size keeps the data pointer', r1_owner_pointer)
     ctx.run('C08.R2', 'release once: take() guards the pool release; Drop releases; not Clone/Copy', r2_release_once)
     ctx.run('C08.R3', 'pool side: entry write and tail store under reregister_lock, wrap-safe 16-bit tail, Release store last', r3_pool_side)
     ctx.run('C08.R4', 'id <-> address agreement between new / init_buffer / release; ids only from CompletionFlags::buf_id', r4_id_address)
+    ctx.run('C08.R6', 'a completion naming a pool buffer always hands it to a ReadBuf (no extra condition between buf_id() and buffer_init/new_buffer)', r6_selected_buffer_adopted)
     ctx.run('C08.R5', 'abandoned pool reads must give the selected buffer back', r5_abandoned)
 
 
